@@ -148,11 +148,15 @@ theorem code_matches_model :
     Gen.Upstream.doSlotsRefresh =
       ["v := newArray( *newBulkString(\"cluster\"), *newBulkString(\"nodes\"), )",
       "req := newSimpleRequest(v)",
-      "req.abort = u.quit",
       "addr, err := u.randomHost()",
       "if err != nil { return err }",
+      "giveUp := make(chan struct{})",
+      "timer := time.NewTimer(slotsRefTimeout)",
+      "defer timer.Stop()",
+      "go func() { select { case <-req.done: return case <-u.quit: case <-timer.C: } close(giveUp) }()",
+      "req.abort = giveUp",
       "u.MakeRequestToHost(addr, req)",
-      "select { case <-req.done: case <-u.quit: return errors.New(upstreamExited) }",
+      "select { case <-req.done: case <-giveUp: select { case <-req.done: case <-u.quit: return errors.New(upstreamExited) default: return errors.New(\"no answer to cluster nodes from \" + addr) } }",
       "resp := req.Response()",
       "if resp.Type == Error { return errors.New(string(resp.Text)) }",
       "if resp.Type != BulkString { return errInvalidClusterNodes }",
